@@ -54,7 +54,7 @@ class Recorder:
         self.direction = None
 
 
-def build(tree, thick, ops=("mean", "sum"), with_dx=True, resolution=None, vector_2d=False, with_dy=True, direction="z", call_operation="max", reuse=None, call_mode=None):
+def build(tree, thick, ops=("mean", "sum"), with_dx=True, resolution=None, vector_2d=False, with_dy=True, direction="z", call_operation="max", reuse=None, call_mode=None, with_scatter=False):
     hooks = core_hooks()
     hooks["ext"].update(np_hooks({
         "numpy.abs": lambda x: OpTok("abs", x, None) if isinstance(x, ArrTok) else Sym(("abs", origin_of(x))),
@@ -84,6 +84,11 @@ def build(tree, thick, ops=("mean", "sum"), with_dx=True, resolution=None, vecto
     vector = ev0.instantiate(ci, [vel], {"aux": dict(aux), "operation": ops[1], "mode": "vec"}, None)
     scalar2 = ev0.instantiate(ci, [ArrTok("TEMP", "K", (N,), "temperature")], {"aux": dict(aux), "mode": "contour"}, None)   # operation from the call
     layers = [scalar, vector, scalar2] if reuse is None else reuse
+    if with_scatter and reuse is None:
+        # a scatter-mode layer (drawn on top, not binned) with an operation of its own between the image layers
+        pts, _ = make_vector(tree, {c: "PTS." + c for c in "xyz"}, unit="m", shape=(N,), hooks=hooks)
+        pts._attrs["_name"] = "position"
+        layers = [scalar, ev0.instantiate(ci, [pts], {"aux": dict(aux), "mode": "scatter", "operation": "min"}, None), vector, scalar2]
     # ---- stubs
     def basis_stub(direction=None, data=None, dx=None, dy=None, origin=None):
         rec.direction = dict(direction=direction, data=data, dx=dx, dy=dy, origin=origin)
@@ -162,6 +167,7 @@ SCENARIOS = [
     ("thick map, depth resolution given", True, ("mean", "sum"), {"x": 8, "y": 6, "z": 4}),
     ("thick map, depth resolution derived", True, ("nansum", "mean"), {"x": 8, "y": 6}),
     ("thick map with a single depth sample", True, ("sum", "mean"), {"x": 8, "y": 6, "z": 1}),
+    ("thick map with a scatter layer between the image layers", True, ("mean", "sum"), {"x": 8, "y": 6, "z": 4}, {"with_scatter": True}),
 ]
 LAYOUT = [("scalar", 0, 1), ("vector", 1, 3), ("scalar", 4, 1)]
 
@@ -180,12 +186,12 @@ def thorough_scenarios():
 def check_map(run, tree, aspects=("slots", "rendered", "geometry", "inputs"), depth_axis=0, scenarios=None):
     fi = tree.func(MAP)
     run.analysed(fi)
-    for label, thick, ops, reso in (scenarios or SCENARIOS):
+    for label, thick, ops, reso, *more in (scenarios or SCENARIOS):
         layer_ops = [ops[0], ops[1], "max"]
         try:
             reso_in = dict(reso)
             try:
-                rec, out, layers, hooks = build(tree, thick, ops, resolution=reso_in)
+                rec, out, layers, hooks = build(tree, thick, ops, resolution=reso_in, **(more[0] if more else {}))
             except (Raised, ProgramRaised) as e:
                 run.violated("%s[%s]" % (MAP, label), fi.where(), "raises %s" % e, "map() of a scalar, a vector and another scalar layer")
                 continue
